@@ -123,7 +123,7 @@ Definition astream (es : list aentry) : list byte := flat_map astream1 es.
 Record arstate := mkAR {
   ar_files : list aentry;          (* f.files[f.idx:] *)
   ar_src : option aentry;          (* f.src *)
-  ar_buf : list byte;             (* f.buf *)
+  ar_buf : list byte;             (* f.buf: the reader's own copy of header+newline, never the caller's p *)
   ar_file : option (list byte);   (* f.file: the unread rest of the open file *)
   ar_left : Z;                    (* f.left *)
   ar_fds : nat;                   (* descriptors currently open *)
@@ -231,7 +231,13 @@ Definition ar_reader_run (es : list aentry) (sizes : list nat) (dflt : nat) :=
 (* ------------------------------------------------------------------------------------ *)
 (* archiveFileWriter *)
 Record awstate := mkAW {
-  aw_buf : list byte;             (* f.buf: the part of a header seen so far *)
+  aw_buf : list byte;             (* f.buf: the part of a header seen so far.  A VALUE: the writer owns a
+                                     copy (append(f.buf, p...)), it does not keep the caller's slice.  Hence
+                                     the model's result is a function of the byte values of the segments at
+                                     the time of each Write only - exactly what C15_writer quantifies over -
+                                     and no assumption on what the caller does with its buffer afterwards is
+                                     needed.  The harness checks this of the code by reusing and scribbling
+                                     over one backing array (oracle key roundtrip-tree:reused-buffer). *)
   aw_file : option apath;          (* f.file: the open file, by its path *)
   aw_left : Z;                    (* f.left *)
   aw_fs : afs;
